@@ -26,6 +26,7 @@ type tagBackend struct {
 	pace    time.Duration // pause between the backend's writes
 	piece   int           // bytes per write (0: 1000)
 	eofs    int           // connections that saw the end of their stream
+	slowReader time.Duration // pause after every read (a host that drains its socket slowly)
 }
 
 func newTagBackend(sends []byte) *tagBackend {
@@ -64,6 +65,9 @@ func newTagBackend(sends []byte) *tagBackend {
 				buf := make([]byte, 32768)
 				for {
 					n, err := c.Read(buf)
+					if b.slowReader > 0 {
+						time.Sleep(b.slowReader)
+					}
 					b.mu.Lock()
 					b.got = append(b.got, buf[:n]...)
 					if err != nil {
@@ -383,6 +387,66 @@ func streamC07(env *runEnv) {
 func init() { streams["c01gw"] = func(env *runEnv) { srv := newL2Server(true, 0); defer srv.close(); inAgainCases(env, srv) } }
 
 func inAgainCases(env *runEnv, srv *l2server) {
+	// an inbound request that arrives before its outbound channel exists is refused at once and stays
+	// refused: it must not be attached to whichever outbound channel opens next
+	for k := 0; k < 2; k++ {
+		b := newTagBackend(nil)
+		idA := fmt.Sprintf("{early-a-%d-%d}", env.seed, k)
+		idB := fmt.Sprintf("{early-b-%d-%d}", env.seed, k)
+		type inRes struct {
+			st   int
+			err  error
+			conn net.Conn
+			took time.Duration
+		}
+		early := make(chan inRes, 1)
+		go func() {
+			t0 := time.Now()
+			c, _, st, err := legacyOpenIn(srv.inst, idB, nil)
+			early <- inRes{st, err, c, time.Since(t0)}
+		}()
+		time.Sleep(150 * time.Millisecond)
+		obs := "a-out-failed"
+		outA, outBr, st, err := legacyOpenOut(srv.inst, idA, nil)
+		if err == nil && st == 200 {
+			var rb inRes
+			select {
+			case rb = <-early:
+			case <-time.After(6 * time.Second):
+				rb = inRes{st: -1}
+			}
+			bObs := fmt.Sprintf("b-status-%d", rb.st)
+			if rb.st == 400 && rb.took < time.Second {
+				bObs = "b-refused"
+			}
+			aObs := "a-in-refused"
+			inA, _, st2, err2 := legacyOpenIn(srv.inst, idA, nil)
+			if err2 == nil && st2 == 200 {
+				inA.Write([]byte("preamble"))
+				time.Sleep(60 * time.Millisecond)
+				hs := packet(ptHandshake, handshakeBody(1, 0, 0, 2))
+				inA.Write([]byte(fmt.Sprintf("%x\r\n%s\r\n", len(hs), hs)))
+				outA.SetReadDeadline(time.Now().Add(time.Second))
+				h := make([]byte, 8)
+				if _, e := readFull(outBr, h); e == nil {
+					aObs = "a-answered"
+				} else {
+					aObs = "a-not-answered"
+				}
+			}
+			if inA != nil {
+				inA.Close()
+			}
+			if rb.conn != nil {
+				rb.conn.Close()
+			}
+			outA.Close()
+			obs = bObs + " " + aObs
+		}
+		env.count("c07.in-before-out")
+		env.emit("inbeforeout", obs)
+		b.close()
+	}
 	// a tunnel's inbound channel is attached once: after the tunnel ended (by a refused step or by a close)
 	// another RDG_IN_DATA with the same connection id must not start a second packet loop on it
 	for k, ending := range []string{"error", "close", "leave-open"} {
